@@ -956,6 +956,598 @@ theorem c16_accessors_shared {s : St} {ts : List Table} (g : GoodS s ts) (i : Na
 
 example : GoodS ⟨[], []⟩ [] := c16_good_init.toGoodS
 
+/-! ### row-oriented reading of the plain tables -/
+
+namespace C16
+/-- row `i` of a table: the record of its field values -/
+def rowAt (t : Table) (i : Nat) : List (Name × Option Int) := t.cols.map fun p => (p.1, p.2.vals[i]?)
+
+theorem gatherE_get {vs : List Int} : ∀ {ks : List Nat} {out : List Int}, gatherE vs ks = .ok out →
+    ∀ (i : Nat), out[i]? = (ks[i]?).bind (fun k => vs[k]?) := by
+  intro ks
+  induction ks with
+  | nil => intro out h i; simp [gatherE, mapE] at h; subst h; simp
+  | cons k ks ih =>
+    intro out h i
+    unfold gatherE mapE at h
+    split at h
+    · cases h
+    · rename_i v hv
+      split at hv
+      · rename_i v' hv'
+        cases hv
+        split at h
+        · cases h
+        · rename_i outs houts
+          cases h
+          cases i with
+          | zero => simp [hv']
+          | succ j => simpa using ih (out := outs) houts j
+      · cases hv
+
+/-- columns gathered with one index list: row `i` of the result is row `ks[i]` of the origin -/
+theorem rows_gather {ks : List Nat} : ∀ {cols : List (Name × Col)} {cols' : PCols},
+    List.Forall₂ (fun (p : Name × Col) (e : Name × Prov × Col) => e.1 = p.1 ∧ gatherE p.2.vals ks = .ok e.2.2.vals) cols cols' →
+    ∀ (i : Nat), cols'.map (fun e => (e.1, e.2.2.vals[i]?)) = cols.map (fun p => (p.1, (ks[i]?).bind (fun k => p.2.vals[k]?))) := by
+  intro cols cols' h
+  induction h with
+  | nil => intro i; rfl
+  | cons hab _ ih =>
+    intro i
+    simp only [List.map_cons, ih i, hab.1, gatherE_get hab.2 i]
+
+theorem rows_gather' {ks : List Nat} : ∀ {cols cols' : List (Name × Col)},
+    List.Forall₂ (fun (p : Name × Col) (e : Name × Col) => e.1 = p.1 ∧ gatherE p.2.vals ks = .ok e.2.vals) cols cols' →
+    ∀ (i : Nat), cols'.map (fun e => (e.1, e.2.vals[i]?)) = cols.map (fun p => (p.1, (ks[i]?).bind (fun k => p.2.vals[k]?))) := by
+  intro cols cols' h
+  induction h with
+  | nil => intro i; rfl
+  | cons hab _ ih =>
+    intro i
+    simp only [List.map_cons, ih i, hab.1, gatherE_get hab.2 i]
+
+theorem sortBy_tgt {get : Nat → Except Err Table} {k c n : Nat} {perm : List Nat} {tgt : Target} {u : Upd} {out : Out}
+    (h : tableOp get k (.sortBy c n perm) = .ok (tgt, u, out)) : tgt = .inplace c := by
+  simp only [tableOp, bind_ok] at h
+  obtain ⟨t, _, h⟩ := h
+  split at h
+  · cases h
+  · split_ifs at h
+    simp only [bind_ok] at h
+    obtain ⟨ks, _, h⟩ := h
+    split_ifs at h
+    simp only [bind_ok] at h
+    obtain ⟨cols, _, h⟩ := h
+    simp only [pure_eq, Except.ok.injEq, Prod.mk.injEq] at h
+    exact h.1.symm
+
+theorem stepT_inplace {ts : List Table} {op : Op} {c : Nat} {u : Upd} {out : Out}
+    (h : tableOp (getT ts) ts.length op = .ok (.inplace c, u, out)) : stepT ts op = (ts.set c u.table, .ok out) := by
+  unfold stepT; rw [h]
+
+theorem stepT_new {ts : List Table} {op : Op} {u : Upd} {out : Out}
+    (h : tableOp (getT ts) ts.length op = .ok (.new, u, out)) : stepT ts op = (ts ++ [u.table], .ok out) := by
+  unfold stepT; rw [h]
+end C16
+
+open C16
+
+/-- the index test of the model is a genuine permutation test -/
+theorem c16_isPerm_perm (perm : List Nat) (n : Nat) (h : isPerm perm n = true) : perm.Perm (List.range n) := by
+  simp only [isPerm, Bool.and_eq_true, beq_iff_eq, List.all_eq_true, List.mem_range] at h
+  obtain ⟨hl, hs⟩ := h
+  have hsub : List.range n ⊆ perm := fun k hk => by simpa using hs k (List.mem_range.mp hk)
+  have hsp : (List.range n).Subperm perm := List.subperm_of_subset List.nodup_range hsub
+  exact (hsp.perm_of_length_le (by simp [hl])).symm
+
+/-- **Sorting permutes rows**: after a successful `sort_by_field`, row `i` of the table is the old row `perm[i]` — in
+every column at once —, `perm` is a permutation of `range len` (so the rows are the same multiset), and the key column is
+non-decreasing. -/
+theorem c16_sort_rows (ts : List Table) (hwf : ∀ t ∈ ts, WF t) (c n : Nat) (perm : List Nat) (tgt : Target) (u : Upd) (out : Out)
+    (h : tableOp (getT ts) ts.length (.sortBy c n perm) = .ok (tgt, u, out)) :
+    ∃ t key, ts[c]? = some t ∧ t.cols.lookup n = some key ∧ tgt = .inplace c ∧ stepT ts (.sortBy c n perm) = (ts.set c u.table, .ok (.idxs perm)) ∧
+      perm.Perm (List.range t.len) ∧
+      (∀ i, i < t.len → ∃ k, perm[i]? = some k ∧ rowAt u.table i = rowAt t k) ∧
+      (∃ ks, gatherE key.vals perm = .ok ks ∧ nondecr ks = true ∧ ((u.table.cols.lookup n).map (·.vals)) = some ks) := by
+  obtain ⟨t, key, ht, hkey, hperm, ⟨ks, hks, hnd⟩, hout, hf⟩ := c16_sort_aligned _ _ _ _ _ _ _ _ h
+  have htc := getT_ok ht
+  have wt := hwf t (List.mem_of_getElem? htc)
+  have hklen : key.vals.length = t.len := wt.2 _ (mem_of_lookup _ _ _ hkey)
+  have htgt : tgt = .inplace c := sortBy_tgt h
+  subst htgt
+  subst hout
+  have hpp : perm.Perm (List.range t.len) := by rw [← hklen]; exact c16_isPerm_perm _ _ hperm
+  have hf' : List.Forall₂ (fun (p : Name × Col) (e : Name × Prov × Col) => e.1 = p.1 ∧ gatherE p.2.vals perm = .ok e.2.2.vals) t.cols u.cols :=
+    hf.imp (fun _ _ hh => ⟨hh.1, hh.2.2⟩)
+  refine ⟨t, key, htc, hkey, rfl, stepT_inplace h, hpp, ?_, ks, hks, hnd, ?_⟩
+  · intro i hi
+    have hil : i < perm.length := by rw [hpp.length_eq]; simpa using hi
+    refine ⟨perm[i], List.getElem?_eq_getElem hil, ?_⟩
+    have := rows_gather hf' i
+    simp only [rowAt, Upd.table, List.map_map, Function.comp_def] at this ⊢
+    rw [this, List.getElem?_eq_getElem hil]
+    rfl
+  · -- the key column of the result is the gathered key
+    have : ∀ {cols : List (Name × Col)} {cols' : PCols},
+        List.Forall₂ (fun (p : Name × Col) (e : Name × Prov × Col) => e.1 = p.1 ∧ gatherE p.2.vals perm = .ok e.2.2.vals) cols cols' →
+        cols.lookup n = some key → ((cols'.map (fun e => (e.1, e.2.2))).lookup n).map (·.vals) = some ks := by
+      intro cols cols' hh
+      induction hh with
+      | nil => intro hl; simp [List.lookup] at hl
+      | @cons p e cols cols' hpe _ ih =>
+        intro hl
+        obtain ⟨p1, p2⟩ := p
+        simp only [List.lookup] at hl
+        simp only [List.map_cons, List.lookup, hpe.1]
+        split at hl
+        · cases hl
+          have := hpe.2; rw [hks] at this; cases this; rfl
+        · exact ih hl
+    exact this hf' hkey
+
+/-- **A selection gathers rows**: row `i` of `t[indices]` is row `ks[i]` of `t` (in every column), where `ks` are the
+positions the index array / mask addresses on an axis of length `len` — the same for every column. -/
+theorem c16_selection_rows (ts : List Table) (hwf : ∀ t ∈ ts, WF t) (c : Nat) (sel : Sel) (tgt : Target) (u : Upd) (out : Out)
+    (h : tableOp (getT ts) ts.length (.getSel c sel) = .ok (tgt, u, out)) :
+    ∃ t, ts[c]? = some t ∧ stepT ts (.getSel c sel) = (ts ++ [u.table], .ok (.cont ts.length)) ∧
+      (t.cols = [] ∨ ∃ ks, selPositions t.len sel = .ok ks ∧ u.table.len = ks.length ∧
+        ∀ (i : Nat), i < ks.length → ∃ k, ks[i]? = some k ∧ rowAt u.table i = rowAt t k) := by
+  obtain ⟨htgt, hout⟩ := C16.target_new_getSel h
+  subst htgt hout
+  obtain ⟨t, ht, hf⟩ := c16_selection_aligned _ _ _ _ _ _ _ h
+  have htc := getT_ok ht
+  have wt := hwf t (List.mem_of_getElem? htc)
+  refine ⟨t, htc, stepT_new h, ?_⟩
+  cases hc : t.cols with
+  | nil => left; rfl
+  | cons p0 rest =>
+    right
+    -- every column has length `t.len`, so `selCol` addresses the same positions in all of them
+    have hks : ∀ p ∈ t.cols, ∀ e : Name × Col, selCol p.2 sel = .ok e.2 →
+        ∃ ks, selPositions t.len sel = .ok ks ∧ gatherE p.2.vals ks = .ok e.2.vals := by
+      intro p hp e hpe
+      unfold selCol at hpe
+      rw [wt.2 p hp] at hpe
+      split at hpe
+      · cases hpe
+      · rename_i ks hk
+        split at hpe
+        · cases hpe
+        · rename_i vs hvs
+          simp only [Except.ok.injEq] at hpe
+          exact ⟨ks, hk, by rw [← hpe]; exact hvs⟩
+    have hp0 : p0 ∈ t.cols := by rw [hc]; exact List.mem_cons_self
+    have hz := List.forall₂_iff_zip.mp hf
+    obtain ⟨e0, he0⟩ : ∃ e0, (p0, e0) ∈ t.cols.zip u.table.cols := by
+      have hl : 0 < u.table.cols.length := by rw [← hz.1, hc]; simp
+      refine ⟨u.table.cols[0], ?_⟩
+      rw [List.mem_iff_getElem]
+      exact ⟨0, by simp [hc]; omega, by simp [hc]⟩
+    obtain ⟨ks, hks0, hg0⟩ := hks p0 hp0 e0 (hz.2 he0).2
+    have hall : List.Forall₂ (fun (p : Name × Col) (e : Name × Col) => e.1 = p.1 ∧ gatherE p.2.vals ks = .ok e.2.vals) t.cols u.table.cols := by
+      refine List.forall₂_iff_zip.mpr ⟨hz.1, fun {a b} hab => ?_⟩
+      obtain ⟨h1, h2⟩ := hz.2 hab
+      obtain ⟨ks', hk', hg'⟩ := hks a (List.of_mem_zip hab).1 b h2
+      rw [hks0] at hk'; cases hk'
+      exact ⟨h1, hg'⟩
+    have hrow : ∀ (i : Nat), u.table.cols.map (fun e => (e.1, e.2.vals[i]?)) =
+        t.cols.map (fun p => (p.1, (ks[i]?).bind (fun k => p.2.vals[k]?))) := fun i => C16.rows_gather' hall i
+    refine ⟨ks, hks0, ?_, ?_⟩
+    · -- the length cache of the selection = length of its first column
+      have hlen0 : e0.2.vals.length = ks.length := mapE_length hg0
+      have hu : u.table.len = u.len := rfl
+      simp only [tableOp, bind_ok] at h
+      obtain ⟨t', ht', cols, hcols, h⟩ := h
+      simp only [pure_eq, Except.ok.injEq, Prod.mk.injEq] at h
+      obtain ⟨_, rfl, _⟩ := h
+      have hcols' : (⟨firstLen cols, freshAll cols⟩ : Upd).table.cols = cols := by simp [Upd.table, freshAll_table]
+      rw [hcols'] at he0
+      have : ∃ r, cols = e0 :: r := by
+        cases hcc : cols with
+        | nil => rw [hcc, hc] at he0; simp at he0
+        | cons x r =>
+          rw [hcc, hc] at he0
+          simp only [List.zip_cons_cons, List.mem_cons, Prod.mk.injEq] at he0
+          rcases he0 with ⟨_, h2⟩ | h2
+          · exact ⟨r, by rw [h2]⟩
+          · exfalso
+            have hk1 : p0.1 ∈ rest.map (·.1) := List.mem_map.mpr ⟨p0, (List.of_mem_zip h2).1, rfl⟩
+            have := wt.1; rw [Table.keys, hc] at this
+            exact (List.nodup_cons.mp this).1 hk1
+      obtain ⟨r, hr⟩ := this
+      simp [Upd.table, hr, firstLen, hlen0]
+    · intro i hi
+      refine ⟨ks[i], List.getElem?_eq_getElem hi, ?_⟩
+      simp only [rowAt]
+      rw [hrow i, List.getElem?_eq_getElem hi]
+      rfl
+
+/-- **A copy has the rows of its origin**: `copy()` appends a table equal to the origin (for a table with at least one field) -/
+theorem c16_copy_eq (ts : List Table) (c : Nat) (t : Table) (ht : ts[c]? = some t) (hne : t.cols ≠ []) :
+    stepT ts (.copy c none) = (ts ++ [t], .ok (.cont ts.length)) := by
+  have hg : getT ts c = .ok t := by simp [getT, ht]
+  unfold stepT
+  simp only [tableOp, hg, bind, Except.bind, pure, Except.pure, copyCols]
+  have : t.cols.isEmpty = false := by
+    cases hc : t.cols with
+    | nil => exact (hne hc).elim
+    | cons _ _ => rfl
+  simp [Upd.table, freshAll_table, this]
+
+/-- **Appending concatenates rows**: after `t.append(s)` every column of `t` has the promoted dtype, its first `len t`
+values are the old ones, and position `len t + j` holds row `j` of the partner's column of the same name — the same `j`
+in every column. -/
+theorem c16_append_rows (get : Nat → Except Err Table) (k c d : Nat) (tgt : Target) (u : Upd) (out : Out)
+    (h : tableOp get k (.append c d) = .ok (tgt, u, out)) :
+    ∃ t s, get c = .ok t ∧ get d = .ok s ∧ tgt = .inplace c ∧ u.len = t.len + s.len ∧
+      List.Forall₂ (fun (p : Name × Col) (e : Name × Prov × Col) => e.1 = p.1 ∧ ∃ src, s.cols.lookup p.1 = some src ∧
+          e.2.2.dt = promote p.2.dt src.dt ∧
+          (∀ (i : Nat), i < p.2.vals.length → e.2.2.vals[i]? = (p.2.vals[i]?).map (castVal e.2.2.dt)) ∧
+          (∀ (j : Nat), e.2.2.vals[p.2.vals.length + j]? = (src.vals[j]?).map (castVal e.2.2.dt))) t.cols u.cols := by
+  simp only [tableOp, bind_ok] at h
+  obtain ⟨t, ht, s, hs, cols, hcols, h⟩ := h
+  simp only [pure_eq, Except.ok.injEq, Prod.mk.injEq] at h
+  obtain ⟨rfl, rfl, rfl⟩ := h
+  refine ⟨t, s, ht, hs, rfl, rfl, (mapE_forall₂ _ _ _ hcols).imp ?_⟩
+  intro p e hpe
+  unfold appendCol at hpe
+  split at hpe
+  · rename_i c2 hl
+    cases hpe
+    refine ⟨rfl, c2, hl, rfl, ?_, ?_⟩
+    · intro i hi
+      simp only [npAppend]
+      rw [List.getElem?_append_left (by simpa using hi), List.getElem?_map]
+    · intro j
+      simp only [npAppend]
+      rw [List.getElem?_append_right (by simp), List.length_map, Nat.add_sub_cancel_left, List.getElem?_map]
+  · cases hpe
+
+/-! ### renaming -/
+
+namespace C16
+theorem dpop_perm {β : Type} : ∀ (d : List (Name × β)) (o : Name) (v : β), (d.map (·.1)).Nodup → d.lookup o = some v →
+    (d.map (·.2)).Perm (v :: (dpop d o).map (·.2)) := by
+  intro d
+  induction d with
+  | nil => intro o v _ h; simp [List.lookup] at h
+  | cons p d ih =>
+    intro o v hk hl
+    obtain ⟨k, x⟩ := p
+    simp only [List.map_cons, List.nodup_cons] at hk
+    simp only [List.lookup] at hl
+    split at hl
+    · rename_i heq
+      have hok : o = k := by simpa using heq
+      subst hok
+      cases hl
+      have hd : dpop ((o, v) :: d) o = d := by
+        simp only [dpop, List.filter_cons, beq_self_eq_true, Bool.not_true, Bool.false_eq_true, if_false]
+        apply List.filter_eq_self.mpr
+        intro q hq
+        have : q.1 ≠ o := fun h => hk.1 (List.mem_map.mpr ⟨q, hq, h⟩)
+        simpa using this
+      rw [hd]
+      exact List.Perm.refl _
+    · rename_i hne
+      have hne' : ¬ o = k := by simpa using hne
+      have hd : dpop ((k, x) :: d) o = (k, x) :: dpop d o := by
+        have : (k == o) = false := by rw [beq_eq_false_iff_ne]; exact fun h => hne' h.symm
+        simp [dpop, this]
+      rw [hd]
+      simp only [List.map_cons]
+      exact ((ih o v hk.2 hl).cons x).trans (List.Perm.swap v x _)
+
+/-- the loop of `rename_fields` (after the fix) only moves columns: the multiset of column payloads and the
+distinctness of the names are kept -/
+theorem renameLoop_perm {β : Type} (names : List Name) (must : Bool) :
+    ∀ (convs : List (Name × Name)) (d d' : List (Name × β)), (d.map (·.1)).Nodup → renameLoop names must convs d = .ok d' →
+      (d'.map (·.2)).Perm (d.map (·.2)) ∧ (d'.map (·.1)).Nodup := by
+  intro convs
+  induction convs with
+  | nil => intro d d' hk h; simp [renameLoop] at h; subst h; exact ⟨List.Perm.refl _, hk⟩
+  | cons cv convs ih =>
+    intro d d' hk h
+    obtain ⟨o, n⟩ := cv
+    unfold renameLoop at h
+    by_cases h1 : names.contains o = true
+    · rw [if_pos h1] at h
+      split at h
+      · rename_i v hv
+        split at h
+        · cases h
+        · rename_i hno
+          have hs : (dpop d o).Sublist d := List.filter_sublist
+          have hk1 : ((dpop d o).map (·.1)).Nodup := hk.sublist (hs.map _)
+          have hn : n ∉ (dpop d o).map (·.1) := fun hh => hno ((dhas_iff _ n).mpr hh)
+          have hds : dset (dpop d o) n v = dpop d o ++ [(n, v)] := by
+            unfold dset; rw [if_neg hno]
+          have hk2 : ((dset (dpop d o) n v).map (·.1)).Nodup := by
+            rw [hds, List.map_append]
+            exact List.Nodup.append hk1 (by simp) (by intro a ha hb; simp at hb; subst hb; exact hn ha)
+          obtain ⟨p1, p2⟩ := ih _ _ hk2 h
+          refine ⟨p1.trans ?_, p2⟩
+          rw [hds, List.map_append]
+          simp only [List.map_cons, List.map_nil]
+          exact (List.perm_append_comm.trans (by simp)).trans (dpop_perm d o v hk hv).symm
+      · cases h
+    · rw [if_neg h1] at h
+      split at h
+      · cases h
+      · exact ih _ _ hk h
+end C16
+
+/-- **Renaming keeps every column** (code after the fix): a successful `rename_fields` leaves the same columns — as a
+multiset, same number — under distinct names; nothing is overwritten. -/
+theorem c16_rename_keeps_columns (ts : List Table) (hwf : ∀ t ∈ ts, WF t) (c : Nat) (convs : List (Name × Name)) (must : Bool)
+    (tgt : Target) (u : Upd) (out : Out) (h : tableOp (getT ts) ts.length (.rename c convs must) = .ok (tgt, u, out)) :
+    ∃ t, ts[c]? = some t ∧ (u.table.cols.map (·.2)).Perm (t.cols.map (·.2)) ∧ u.table.cols.length = t.cols.length ∧ u.table.len = t.len := by
+  simp only [tableOp, bind_ok] at h
+  obtain ⟨t, ht, cols, hcols, h⟩ := h
+  simp only [pure_eq, Except.ok.injEq, Prod.mk.injEq] at h
+  obtain ⟨_, rfl, _⟩ := h
+  have htc := getT_ok ht
+  have wt := hwf t (List.mem_of_getElem? htc)
+  have hk0 : ((keepAll t.cols).map (·.1)).Nodup := by
+    have : (keepAll t.cols).map (·.1) = t.keys := by simp [keepAll, Table.keys, List.map_map, Function.comp_def]
+    rw [this]; exact wt.1
+  obtain ⟨hp, _⟩ := C16.renameLoop_perm _ _ _ _ _ hk0 hcols
+  have hp2 : (cols.map (fun e => e.2.2)).Perm (t.cols.map (·.2)) := by
+    have := hp.map (fun pv : Prov × Col => pv.2)
+    simpa [keepAll, List.map_map, Function.comp_def] using this
+  refine ⟨t, htc, ?_, ?_, rfl⟩
+  · simpa [Upd.table, List.map_map, Function.comp_def] using hp2
+  · have := hp2.length_eq
+    simpa [Upd.table] using this
+
+/-- the statement for the loop as it was coded before the fix -/
+def c16_rename_old_keeps_columns_statement : Prop :=
+  ∀ (names : List Name) (must : Bool) (convs : List (Name × Name)) (d d' : List (Name × Nat)),
+    (d.map (·.1)).Nodup → (convs.map (·.1)).Nodup → renameLoopOld names must convs d = .ok d' → d'.length = d.length
+
+/-- **Counterexample (code before the fix)**: `rename_fields({'ra': 'dec', 'dec': 'x'})` on the fields `ra, dec, x`
+leaves the single field `x` holding the `ra` data — two columns are gone without an error. -/
+theorem c16_rename_old_counterexample : ¬ c16_rename_old_keeps_columns_statement := by
+  intro h
+  have := h [0, 1, 6] false [(0, 1), (1, 6)] [(0, 100), (1, 101), (6, 106)] [(6, 100)] (by decide) (by decide) (by decide)
+  revert this
+  decide
+
+/-! ### the order of checks and writes: what the fixes are about -/
+
+namespace C16
+def seqDemo : St := runH ⟨[], []⟩ [.new [(0, ⟨.i64, [2, 1]⟩), (1, ⟨.f32, [5, 6]⟩)], .new [(0, ⟨.i16, [7, 7]⟩)],
+                                      .new [(0, ⟨.i16, [7, 7]⟩), (1, ⟨.f32, [8, 8]⟩)]]
+end C16
+
+/-- "a raising `set_selection` leaves the arrays as they were", for the executor that interleaves look-ups and writes -/
+def c16_setSel_seq_error_no_change_statement : Prop :=
+  ∀ (ro : List Loc) (s : St) (c : Nat) (sel : Sel) (d : Nat) (e : Err),
+    (setSelSeq ro s c sel d).2 = .error e → (setSelSeq ro s c sel d).1.heap = s.heap
+
+/-- **Counterexample (code before the fixes), partner misses a field**: `a = {ra: [2,1], dec: [5,6]}`, `b = {ra: [7,7]}`,
+`a.set_selection([0,1], b)` raises `KeyError` with `a['ra']` already `[7,7]`. -/
+theorem c16_setSel_seq_counterexample : ¬ c16_setSel_seq_error_no_change_statement := by
+  intro h
+  have := h [] C16.seqDemo 0 (.idx [0, 1]) 1 .key (by decide)
+  revert this
+  decide
+
+/-- **Counterexample, read-only column**: with `a['dec']` a read-only array and a complete partner, the sequential
+executor raises `ValueError` after `a['ra']` has been written — the partial write the reviewer probed on the real code. -/
+theorem c16_setSel_seq_readonly_counterexample :
+    (setSelSeq [1] C16.seqDemo 0 (.idx [0, 1]) 2).2 = .error .value ∧
+    (setSelSeq [1] C16.seqDemo 0 (.idx [0, 1]) 2).1.heap ≠ C16.seqDemo.heap := by decide
+
+/-- the code after the fixes (`stepXR`: look-ups, then the writeable check, then the writes) on the same two witnesses:
+the same exceptions, nothing written -/
+theorem c16_setSel_fixed_on_witnesses :
+    let r1 := stepXR [] C16.seqDemo (.base (.setSel 0 (.idx [0, 1]) 1))
+    let r2 := stepXR [1] C16.seqDemo (.base (.setSel 0 (.idx [0, 1]) 2))
+    (r1.1.heap = C16.seqDemo.heap ∧ r1.1.conts = C16.seqDemo.conts ∧ r1.2 = .error .key) ∧
+    (r2.1.heap = C16.seqDemo.heap ∧ r2.1.conts = C16.seqDemo.conts ∧ r2.2 = .error .value) := by decide
+
+/-- **A blocked or raising operation changes nothing** (code after the fixes, read-only arrays included) -/
+theorem c16_readonly_error_no_change (ro : List Loc) (s : St) (xop : XOp) (h : roBlocked ro s xop = true) :
+    (stepXR ro s xop).1 = s ∧ ∃ e, (stepXR ro s xop).2 = .error e := by
+  unfold stepXR
+  rw [if_pos h]
+  split <;> exact ⟨rfl, _, rfl⟩
+
+/-- and when no column of the target is read-only the read-only layer is the plain one -/
+theorem c16_readonly_transparent (ro : List Loc) (s : St) (xop : XOp) (h : roBlocked ro s xop = false) :
+    stepXR ro s xop = stepX s xop := by
+  unfold stepXR; rw [if_neg (by simp [h])]
+
+/-- "a raising `append` leaves the container as it was", for the executor that rebinds field by field -/
+def c16_append_seq_error_no_change_statement : Prop :=
+  ∀ (s : St) (c d : Nat) (e : Err), (appendSeq s c d).2 = .error e → (appendSeq s c d).1.conts = s.conts
+
+/-- **Counterexample (code before the fix)**: `a.append(b)` with `b` missing `dec` raises `KeyError` after `a['ra']` has
+been rebound to the 4-row array: columns of different lengths. -/
+theorem c16_append_seq_counterexample : ¬ c16_append_seq_error_no_change_statement := by
+  intro h
+  have := h C16.seqDemo 0 1 .key (by decide)
+  revert this
+  decide
+
+/-! ### in-place assignment to a selection -/
+
+namespace C16
+theorem scatter_append : ∀ (a b : List (Nat × Int)) (vs : List Int), scatter vs (a ++ b) = scatter (scatter vs a) b := by
+  intro a
+  induction a with
+  | nil => intro b vs; rfl
+  | cons p a ih => intro b vs; obtain ⟨k, v⟩ := p; simp only [List.cons_append, scatter]; exact ih b _
+
+/-- positions that are not addressed keep their value -/
+theorem scatter_untouched : ∀ (ps : List (Nat × Int)) (vs : List Int) (i : Nat), (∀ p ∈ ps, p.1 ≠ i) →
+    (scatter vs ps)[i]? = vs[i]? := by
+  intro ps
+  induction ps with
+  | nil => intro vs i _; rfl
+  | cons p ps ih =>
+    intro vs i h
+    obtain ⟨k, v⟩ := p
+    simp only [scatter]
+    rw [ih _ i (fun q hq => h q (List.mem_cons_of_mem _ hq)), List.getElem?_set_ne (h (k, v) List.mem_cons_self)]
+
+/-- an addressed position holds the value of the *last* assignment to it -/
+theorem scatter_last (pre post : List (Nat × Int)) (vs : List Int) (i : Nat) (v : Int) (hi : i < vs.length)
+    (hpost : ∀ p ∈ post, p.1 ≠ i) : (scatter vs (pre ++ (i, v) :: post))[i]? = some v := by
+  rw [scatter_append]
+  simp only [scatter]
+  rw [scatter_untouched post _ i hpost]
+  have : i < (scatter vs pre).length := by rw [scatter_length]; exact hi
+  simp [this]
+
+/-- the values written by `dst[indices] = src`: one source value per addressed position, a length-1 source broadcast -/
+def assigned (n : Nat) (sv : List Int) : List Int :=
+  if sv.length = n then sv else match sv with
+    | [v] => List.replicate n v
+    | _ => sv
+
+theorem zip_replicate (v : Int) : ∀ (ks : List Nat), ks.zip (List.replicate ks.length v) = ks.map fun k => (k, v) := by
+  intro ks
+  induction ks with
+  | nil => rfl
+  | cons k ks ih => simp [List.replicate_succ, ih]
+
+/-- what `putSel` computes: same dtype, the destination values with the addressed positions overwritten in order -/
+theorem putSel_spec {dst src c' : Col} {sel : Sel} (h : putSel dst sel src = .ok c') :
+    ∃ ks, selPositions dst.vals.length sel = .ok ks ∧ c'.dt = dst.dt ∧
+      c'.vals = scatter dst.vals (ks.zip (assigned ks.length (src.vals.map (castVal dst.dt)))) ∧
+      ((src.vals.map (castVal dst.dt)).length = ks.length ∨ (src.vals.map (castVal dst.dt)).length = 1) := by
+  unfold putSel at h
+  split at h
+  · cases h
+  · rename_i ks hks
+    simp only at h
+    split at h
+    · rename_i hlen
+      cases h
+      exact ⟨ks, hks, rfl, by simp [assigned, hlen], Or.inl hlen⟩
+    · rename_i hlen
+      split at h
+      · rename_i v hv
+        cases h
+        refine ⟨ks, hks, rfl, ?_, Or.inr (by rw [hv]; rfl)⟩
+        simp only [assigned, hv]
+        rw [if_neg (by rw [hv] at hlen; exact hlen), zip_replicate]
+      · cases h
+end C16
+
+/-- **`set_selection` replaces exactly the selected rows, the same way in every column.**  For a successful
+`t.set_selection(indices, s)`: there is one list of positions `ks` (what `indices` addresses on an axis of length `len t`);
+every column keeps its dtype and length and is the old column with, for `j = 0, 1, …`, position `ks[j]` overwritten by the
+`j`-th value (value 0 if the partner has one row) of the partner's column of the same name, cast to the column's dtype.
+With `scatter_untouched` / `scatter_last`: rows that are not selected are untouched, a selected row gets the partner row of
+the last `j` addressing it — the same `j` in every column. -/
+theorem c16_setSel_rows (ts : List Table) (hwf : ∀ t ∈ ts, WF t) (c : Nat) (sel : Sel) (d : Nat) (tgt : Target) (u : Upd) (out : Out)
+    (h : tableOp (getT ts) ts.length (.setSel c sel d) = .ok (tgt, u, out)) :
+    ∃ t s, ts[c]? = some t ∧ ts[d]? = some s ∧ tgt = .inplace c ∧ u.len = t.len ∧
+      (t.cols = [] ∨ ∃ ks, selPositions t.len sel = .ok ks ∧
+        List.Forall₂ (fun (p : Name × Col) (e : Name × Prov × Col) => e.1 = p.1 ∧ e.2.1 = .written p.1 ∧ e.2.2.dt = p.2.dt ∧
+          ∃ src, s.cols.lookup p.1 = some src ∧
+            e.2.2.vals = scatter p.2.vals (ks.zip (C16.assigned ks.length (src.vals.map (castVal p.2.dt))))) t.cols u.cols) := by
+  simp only [tableOp, bind_ok] at h
+  obtain ⟨t, ht, s, hs, srcs, hsrcs, cols, hcols, h⟩ := h
+  simp only [pure_eq, Except.ok.injEq, Prod.mk.injEq] at h
+  obtain ⟨rfl, rfl, rfl⟩ := h
+  have htc := getT_ok ht
+  have wt := hwf t (List.mem_of_getElem? htc)
+  refine ⟨t, s, htc, getT_ok hs, rfl, rfl, ?_⟩
+  have hf := forall₂_comp (mapE_forall₂ _ _ _ hsrcs) (mapE_forall₂ _ _ _ hcols)
+  have key : ∀ p e, p ∈ t.cols → (∃ q, srcCol s p = .ok q ∧ putCol sel q = .ok e) →
+      e.1 = p.1 ∧ e.2.1 = .written p.1 ∧ e.2.2.dt = p.2.dt ∧ ∃ ks src, selPositions t.len sel = .ok ks ∧ s.cols.lookup p.1 = some src ∧
+        e.2.2.vals = scatter p.2.vals (ks.zip (C16.assigned ks.length (src.vals.map (castVal p.2.dt)))) := by
+    rintro p e hp ⟨q, h1, h2⟩
+    unfold srcCol at h1
+    split at h1
+    · rename_i c2 hl
+      cases h1
+      unfold putCol at h2
+      split at h2
+      · rename_i c' hput
+        cases h2
+        obtain ⟨ks, hks, hdt, hv, _⟩ := C16.putSel_spec hput
+        rw [wt.2 p hp] at hks
+        exact ⟨rfl, rfl, hdt, ks, c2, hks, hl, hv⟩
+      · cases h2
+    · cases h1
+  cases hc : t.cols with
+  | nil => left; rfl
+  | cons p0 rest =>
+    right
+    have hz := List.forall₂_iff_zip.mp hf
+    have hp0 : p0 ∈ t.cols := by rw [hc]; exact List.mem_cons_self
+    obtain ⟨e0, he0⟩ : ∃ e0, (p0, e0) ∈ t.cols.zip cols := by
+      have hl : 0 < cols.length := by rw [← hz.1, hc]; simp
+      refine ⟨cols[0], ?_⟩
+      rw [List.mem_iff_getElem]
+      exact ⟨0, by simp [hc]; omega, by simp [hc]⟩
+    obtain ⟨_, _, _, ks, _, hks0, _, _⟩ := key p0 e0 hp0 (hz.2 he0)
+    refine ⟨ks, hks0, ?_⟩
+    rw [← hc]
+    refine List.forall₂_iff_zip.mpr ⟨hz.1, fun {a b} hab => ?_⟩
+    obtain ⟨k1, k2, k3, ks', src, hk', hl, hv⟩ := key a b (List.of_mem_zip hab).1 (hz.2 hab)
+    rw [hks0] at hk'; cases hk'
+    exact ⟨k1, k2, k3, src, hl, hv⟩
+
+/-! ### freshness in any state -/
+
+namespace C16
+theorem place_freshAll (old : List (Name × Loc)) : ∀ (cols : List (Name × Col)) (h : List Col),
+    ∃ fs, place old h (freshAll cols) = .ok (h ++ cols.map (·.2), fs) ∧ fs.map (·.2) = List.range' h.length cols.length := by
+  intro cols
+  induction cols with
+  | nil => intro h; exact ⟨[], by simp [freshAll, place], rfl⟩
+  | cons p cols ih =>
+    intro h
+    obtain ⟨fs, hp, hfs⟩ := ih (h ++ [p.2])
+    refine ⟨(p.1, h.length) :: fs, ?_, ?_⟩
+    · simp only [freshAll, List.map_cons, place] at hp ⊢
+      rw [hp]; simp
+    · simp [hfs, List.range'_succ]
+end C16
+
+/-- **Selections and copies are fresh in every state** (no hypothesis on sharing): a successful `get_selection` / `copy`
+appends one container whose columns sit at new, pairwise distinct locations, and changes no existing heap cell — so the
+result shares no memory with its origin or with anything else, also after arrays were handed in that are columns elsewhere. -/
+theorem c16_created_fresh_any (s : St) (op : Op) (out : Out)
+    (hop : (∃ c sel, op = .getSel c sel) ∨ (∃ c keep, op = .copy c keep)) (h : (stepH s op).2 = .ok out) :
+    ∃ cnew, (stepH s op).1.conts = s.conts ++ [cnew] ∧ (cnew.fields.map (·.2)).Nodup ∧
+      (∀ p ∈ cnew.fields, s.heap.length ≤ p.2) ∧ ∀ (l : Nat), l < s.heap.length → (stepH s op).1.heap[l]? = s.heap[l]? := by
+  have hshape : ∀ tgt u o, tableOp (viewAt s) s.conts.length op = .ok (tgt, u, o) → tgt = .new ∧ ∃ cols, u.cols = freshAll cols := by
+    intro tgt u o hr
+    rcases hop with ⟨c, sel, rfl⟩ | ⟨c, keep, rfl⟩
+    · simp only [tableOp, bind_ok] at hr
+      obtain ⟨t, _, cols, _, hr⟩ := hr
+      simp only [pure_eq, Except.ok.injEq, Prod.mk.injEq] at hr
+      obtain ⟨rfl, rfl, _⟩ := hr
+      exact ⟨rfl, cols, rfl⟩
+    · simp only [tableOp, bind_ok] at hr
+      obtain ⟨t, _, hr⟩ := hr
+      simp only [pure_eq, Except.ok.injEq, Prod.mk.injEq] at hr
+      obtain ⟨rfl, rfl, _⟩ := hr
+      exact ⟨rfl, _, rfl⟩
+  unfold stepH at h ⊢
+  cases hr : tableOp (viewAt s) s.conts.length op with
+  | error e => rw [hr] at h; cases h
+  | ok r =>
+    obtain ⟨tgt, u, o⟩ := r
+    obtain ⟨rfl, cols, hcols⟩ := hshape tgt u o hr
+    obtain ⟨fs, hp, hfs⟩ := C16.place_freshAll [] cols s.heap
+    simp only [hcols, hp]
+    refine ⟨_, rfl, ?_, ?_, ?_⟩
+    · simp only [hfs]; exact List.nodup_range'
+    · intro p hp'
+      have : p.2 ∈ fs.map (·.2) := List.mem_map.mpr ⟨p, hp', rfl⟩
+      rw [hfs] at this
+      exact (List.mem_range'_1.mp this).1
+    · intro l hl
+      exact List.getElem?_append_left hl
+
 /-! ### non-vacuity: a concrete history (constructor, indices, append, selection, in-place assignment, sort,
 a raising append) runs through both layers with equal results -/
 
@@ -976,3 +1568,14 @@ example : (runT [] C16.demoOps)[1]? = some ⟨3, [(0, ⟨.i64, [2, 2, 3]⟩), (1
 example : (stepT (runT [] (C16.demoOps.take 7)) (.append 0 2)).2 = .error .key := by decide
 example : (runH ⟨[], []⟩ C16.demoOps).conts.map (·.len) = [6, 3, 1] := by decide
 example : Inv (runH ⟨[], []⟩ C16.demoOps) := ⟨_, c16_refines_from_init _⟩
+
+/-! ### further non-vacuity (review round): freshness with two containers, shared refinement beyond the empty store,
+the row theorems on the demo history -/
+
+example : (stepH (runH ⟨[], []⟩ (C16.demoOps.take 4)) (.copy 0 none)).2 = .ok (.cont 2) := by decide
+example : (stepH (runH ⟨[], []⟩ (C16.demoOps.take 4)) (.getSel 1 (.idx [-1, 0]))).2 = .ok (.cont 2) := by decide
+example : GoodS (runX ⟨[], []⟩ [.base (.new [(0, ⟨.i64, [3, 1, 2]⟩)]), .appendFieldFrom 0 2 0 0, .newShared 0 0, .base (.sortBy 0 0 [1, 2, 0])])
+    (C16.runTX [] [.base (.new [(0, ⟨.i64, [3, 1, 2]⟩)]), .appendFieldFrom 0 2 0 0, .newShared 0 0, .base (.sortBy 0 0 [1, 2, 0])]) :=
+  c16_refines_shared c16_good_init.toGoodS _ (by decide)
+example : C16.rowAt ⟨2, [(0, ⟨.i64, [3, 1]⟩), (1, ⟨.f32, [10, 11]⟩)]⟩ 1 = [(0, some 1), (1, some 11)] := by decide
+example : isPerm [1, 2, 0] 3 = true ∧ [1, 2, 0].Perm (List.range 3) := ⟨by decide, c16_isPerm_perm _ _ (by decide)⟩
